@@ -50,9 +50,11 @@ fn lower(s: &str) -> String {
     s.to_ascii_lowercase()
 }
 
-pub fn is_void(name: &str, html: bool, self_closing: bool, esi: bool) -> bool {
+/// `name` is the lower-cased tag name, `name_pc` the name as written. ESI is an XML language:
+/// its element names are case-sensitive, so only the exact spellings are ESI tags.
+pub fn is_void(name: &str, name_pc: &str, html: bool, self_closing: bool, esi: bool) -> bool {
     if html {
-        VOID.contains(&name) || (esi && (name == "esi:include" || name == "esi:comment"))
+        VOID.contains(&name) || (esi && (name_pc == "esi:include" || name_pc == "esi:comment"))
     } else {
         self_closing
     }
@@ -69,7 +71,7 @@ pub fn build(toks: &[Tok], esi: bool) -> Tree {
         t.node_of_tok.push(None);
         t.closes.push(vec![]);
         match tok {
-            Tok::Start { name, attrs, self_closing, ns, loc, .. } => {
+            Tok::Start { name, name_pc, attrs, self_closing, ns, loc } => {
                 let name = lower(name);
                 let parent = stack.last().copied();
                 let c = counts.entry(parent).or_default();
@@ -84,7 +86,7 @@ pub fn build(toks: &[Tok], esi: bool) -> Tree {
                         av.push((ln, v.clone()));
                     }
                 }
-                let has_content = !is_void(&name, html, *self_closing, esi);
+                let has_content = !is_void(&name, name_pc, html, *self_closing, esi);
                 let id = t.nodes.len();
                 t.nodes.push(Node {
                     tok: i,
